@@ -311,6 +311,15 @@ class Vals:
         underlying place when that operand is itself a place, else the place unchanged."""
         for _ in range(6):
             flds = [e for e in place["p"] if e["k"] != "deref"]
+            if len(flds) >= 2 and flds[0]["k"] == "downcast" and flds[1]["k"] == "field":
+                # `(x as V).i`: only a definition that builds variant V can be read here; if exactly one such definition feeds x
+                # (directly or through plain moves), the projection denotes the operand it was built from
+                op = self._variant_operand(place["l"], flds[0]["variant"], flds[1]["name"], set())
+                if op is None or op["k"] not in ("copy", "move"):
+                    return place
+                rest = place["p"][place["p"].index(flds[1]) + 1:]
+                place = {"l": op["place"]["l"], "p": list(op["place"]["p"]) + rest}
+                continue
             if not flds or flds[0]["k"] != "field":
                 return place
             rv = self.def_rvalue(place["l"])
@@ -330,6 +339,35 @@ class Vals:
             rest = place["p"][place["p"].index(flds[0]) + 1:]
             place = {"l": op["place"]["l"], "p": list(op["place"]["p"]) + rest}
         return place
+
+    def _variant_operand(self, l, variant, field, seen):
+        """The operand stored in field `field` of variant `variant` of local l, when exactly one definition of l (looking through
+        plain moves between locals) builds that variant; None otherwise."""
+        if l in seen or self.is_arg(l) or len(seen) > 8:
+            return None
+        seen.add(l)
+        hits = []
+        for d in self.defs.get(l, []):
+            if self.body.blocks[d[1]]["cleanup"]:
+                continue
+            if d[0] != "stmt":
+                return None          # a call result: not an aggregate we can look into
+            rv = d[3]
+            if rv["k"] == "aggregate" and rv.get("agg") == "adt":
+                if rv.get("variant") == variant:
+                    try:
+                        hits.append(rv["ops"][int(field)] if not rv.get("fields") else rv["ops"][rv["fields"].index(field)])
+                    except (ValueError, IndexError):
+                        return None
+            elif rv["k"] == "use" and rv["op"]["k"] in ("copy", "move") and not rv["op"]["place"]["p"]:
+                op = self._variant_operand(rv["op"]["place"]["l"], variant, field, seen)
+                if op is not None:
+                    hits.append(op)
+            else:
+                return None
+        if self.partial.get(l):
+            return None
+        return hits[0] if len(hits) == 1 else None
 
     def classify_bool(self, operand, depth=0):
         if operand["k"] in ("copy", "move"):
